@@ -104,6 +104,7 @@ type World struct {
 type Body struct {
 	Bytes     []byte
 	ReadFails bool // the body reader fails after Bytes
+	CutShort  bool // ... with io.ErrUnexpectedEOF, as net/http does when fewer bytes arrive than Content-Length announced
 	// content of the well-formed answer this body deviates from (for comparison when something is returned)
 	TS, Size uint64
 	RootHash []byte
@@ -440,7 +441,7 @@ func (w *World) sctJSON(ch *Chain, d sctDev) (*Body, string) {
 func sthDevOf(class string) (sthDev, bool) {
 	d := sthDev{tree: "n", rootLen: 32, sigForm: "ok", alg: "ok", who: "log", over: "same"}
 	switch class {
-	case "valid", "trailingJunk", "truncatedJSON", "bodyReadError":
+	case "valid", "trailingJunk", "truncatedJSON", "bodyReadError", "bodyCutAfterCompleteJSON":
 	case "validEmptyTree":
 		d.tree = "empty"
 	case "rootHashLen31":
@@ -482,7 +483,7 @@ func sthDevOf(class string) (sthDev, bool) {
 func sctDevOf(class string) (sctDev, bool) {
 	d := sctDev{ext: "empty", idLen: 32, id: "keyhash", version: "v1", sigForm: "ok", alg: "ok", who: "log", over: "same"}
 	switch class {
-	case "valid", "trailingJunk", "truncatedJSON", "extBadBase64":
+	case "valid", "trailingJunk", "truncatedJSON", "extBadBase64", "bodyCutAfterCompleteJSON":
 	case "validWithExtensions":
 		d.ext = "some"
 	case "idLen0":
@@ -649,6 +650,10 @@ func (w *World) render(method, chain, class string, rng *mrand.Rand) *Body {
 	case "bodyReadError":
 		out = valid[:1+rng.Intn(len(valid)-1)]
 		body.ReadFails = true
+	case "bodyCutAfterCompleteJSON":
+		// the complete, valid (correctly signed) JSON text arrives, then the transfer ends short of the announced length
+		out = valid
+		body.ReadFails, body.CutShort = true, true
 	case "wrongType":
 		out = wrong
 	case "empty":
@@ -681,13 +686,14 @@ type Script struct {
 }
 
 type failingReader struct {
-	r io.Reader
+	r   io.Reader
+	err error
 }
 
 func (f *failingReader) Read(p []byte) (int, error) {
 	n, err := f.r.Read(p)
 	if err == io.EOF {
-		return n, errors.New("connection reset while reading the body")
+		return n, f.err
 	}
 	return n, err
 }
@@ -733,15 +739,23 @@ func (s *Script) RoundTrip(req *http.Request) (*http.Response, error) {
 	}
 	var rd io.Reader = bytes.NewReader(b.Bytes)
 	if b.ReadFails {
-		rd = &failingReader{rd}
+		rd = &failingReader{rd, errors.New("connection reset while reading the body")}
+		if b.CutShort {
+			rd = &failingReader{bytes.NewReader(b.Bytes), io.ErrUnexpectedEOF}
+		}
 	}
 	if s.i == len(s.step.Answers) && s.step.End == "expired" {
 		// the caller's context ends while the client is waiting to ask again
 		defer s.cancel()
 	}
+	clen := int64(-1)
+	if b.CutShort {
+		clen = int64(len(b.Bytes)) + 17 // more was announced than arrives
+		h.Set("Content-Length", strconv.FormatInt(clen, 10))
+	}
 	return &http.Response{
 		Status: strconv.Itoa(a.Status) + " " + http.StatusText(a.Status), StatusCode: a.Status,
 		Proto: "HTTP/1.1", ProtoMajor: 1, ProtoMinor: 1,
-		Header: h, Body: io.NopCloser(rd), ContentLength: -1, Request: req,
+		Header: h, Body: io.NopCloser(rd), ContentLength: clen, Request: req,
 	}, nil
 }
